@@ -35,6 +35,8 @@ EXPLORED_ONLY = [
 ]
 
 
+RESEND_CLASSES = ("dup-newseq", "dup-newseq-timeout", "timeout", "resend-prev", "resend-prev-timeout")
+
 # ------------------------------------------------------------------ transcript handling
 class Unit:
     def __init__(self, cfg, tok):
@@ -179,6 +181,17 @@ def mutations(cfg, units, k, r):
         for s2 in (0, 1, 0xFFFFFFFFFFFF):
             yield ("seq", "e" + nf, [W[:5] + s2.to_bytes(6, "big") + W[11:]])
         yield ("dup-datagram", "e" + nf, [W, W])
+        # a retransmission by the peer: same message, fresh record sequence number; then our own flight is resent
+        # (matrixDtlsGetOutdata on an empty outbuf), also after a plain timeout
+        bump = lambda x, n: x[:5] + ((int.from_bytes(x[5:11], "big") + n) & 0xFFFFFFFFFFFF).to_bytes(6, "big") + x[11:]
+        yield ("dup-newseq", "eo" + nf, [W, bump(W, 7)])
+        yield ("dup-newseq-timeout", "eot" + nf, [W, bump(W, 7), bump(W, 9)])
+        yield ("timeout", "et" + nf, [W])
+        for back in (1, 2, 3):
+            prev = [x for x in units[:k] if x.to == u.to][-back:]
+            if prev:
+                yield ("resend-prev", "eo" + ("n" if prev[0].nullc else ""), [bump(prev[0].wire, 11 + back)])
+                yield ("resend-prev-timeout", "eot" + ("n" if prev[0].nullc else ""), [bump(prev[0].wire, 11 + back)])
     for i in range(min(12, len(W))):
         yield ("junk-record", "e", [bytes(r.randrange(256) for _ in range(r.choice([1, 5, 13, 40])))])
     yield ("coalesce-next", "e" + nf, [b"".join(x.wire for x in units[k:k + 3] if x.to == u.to)])
@@ -613,6 +626,7 @@ def gen_api(r, n):
                 script.append((-12, 0, 0, 0, r.choice([-12, -8, -1, -6]), 255, 0, 0)); break
             else:
                 script.append((r.choice([-63, -62, -55, -1, 3, 9]), 0, 0, 0, 0, 255, 0, 0)); break
+        if not script: script.append((-51, 0, 0, 5, 0, 255, 0, 0))
         out.append("u api t12 1 c %d %d %d %d %s %s" % (insize, outsize, outlen, nin, ",".join(":".join(str(x) for x in e) for e in script),
                                                         "outside" if outside else "inside"))
     return out
@@ -746,6 +760,9 @@ def explore(ck, h, quick_per_state, thorough_per_state):
         ck.count("x:" + cl)
         sg = signature(o)
         if o.startswith("ok "): ck.count("verdict:" + o.split()[1][:12])
+        if sg and cl in RESEND_CLASSES:
+            # the DTLS flight-resend path (matrixDtlsGetOutdata on an empty outbuf): open findings recorded by C16
+            sg = ("dtls-resend:" + sg[0], sg[1] + " [DTLS flight resend path, cf. C16-resend-full / C16-frag-resend]")
         if sg:
             nfind += 1
             ck.spec_violation(sg[0], "%s (mutation class %s, state %s)" % (sg[1], cl, " ".join(l.split()[1:4])),
